@@ -390,11 +390,19 @@ mtbl_fileset_reload_now(struct mtbl_fileset *f)
 #endif
 	my_gettime(clock, &now);
 
+	/*
+	 * This handle's merger may predate a reload done through another
+	 * handle; it must be rebuilt even if the setfile has not changed
+	 * since then, because fs_last is overwritten below.
+	 */
+	bool stale = (f->fs_last.tv_sec != f->shared_fs->fs_last.tv_sec) ||
+		     (f->fs_last.tv_nsec != f->shared_fs->fs_last.tv_nsec);
+
 	f->shared_fs->n_loaded = 0;
 	f->shared_fs->n_unloaded = 0;
 	assert(f->shared_fs->my_fs != NULL);
 	my_fileset_reload(f->shared_fs->my_fs);
-	if (f->shared_fs->n_loaded > 0 || f->shared_fs->n_unloaded > 0)
+	if (stale || f->shared_fs->n_loaded > 0 || f->shared_fs->n_unloaded > 0)
 		fs_reinit_merger(f);
 	f->shared_fs->fs_last = now;
 	f->fs_last = now;
